@@ -761,6 +761,8 @@ def run(ctx: Ctx) -> None:
 _OPT = "algos/opt/base_optimization_library.py"
 _DBF = "algos/database.py"
 WITNESSES = [
+    {"name": "seeded-C03-10", "file": "algos/opt/scipy_linprog/scipy_linprog.py", "old": "            evaluate_objective=True,\n            no_db_no_norm=True,\n        )\n", "new": "            evaluate_objective=True,\n        )\n", "expect": "3.10", "note": "ScipyLinprog evaluates the LP optimum through the database (dropped no_db_no_nor"},
+    {"name": "seeded-C03-9", "file": "algos/evaluation_problem.py", "old": "\n        for function_name in self._function_names:\n            function = getattr(self, function_name)\n            if isinstance(function, ProblemFunction):\n                function.stop_if_nan = value\n\n    def __check_functions_are_not_preprocessed(self) -> None:\n", "new": "\n    def __check_functions_are_not_preprocessed(self) -> None:\n", "expect": "3.8", "note": "EvaluationProblem.stop_if_nan setter no longer propagates the flag to the object"},
     {"name": "doe-handler-around-the-loop", "file": DOE, "old": "            for index, input_value in enumerate(self.samples):\n                try:\n", "new": "            try:\n              for index, input_value in enumerate(self.samples):\n                if True:\n", "expect": "3.7"},
     {"name": "delete-budget-guard", "file": PF, "old": "            if (\n                not database.get(hashed_xu)\n                and self._evaluation_counter.maximum_is_reached\n            ):\n                raise MaxIterReachedException\n\n            output_value = self._compute_output(input_value)", "new": "            output_value = self._compute_output(input_value)", "expect": "3.1"},
     {"name": "guard-or-instead-of-and", "file": PF, "old": "                not database.get(hashed_xu)\n                and self._evaluation_counter.maximum_is_reached\n            ):\n                raise MaxIterReachedException\n\n            jac_n = self._compute_jacobian(xn_vect)", "new": "                not database.get(hashed_xu)\n                or self._evaluation_counter.maximum_is_reached\n            ):\n                raise MaxIterReachedException\n\n            jac_n = self._compute_jacobian(xn_vect)", "expect": "3.1"},
